@@ -42,6 +42,33 @@ fn c19_frequency_accepts_steady() {
         Err(_) => assert!(false),
     }
 }
+/// rate bounds with the interval fixed at exactly one second (so the rate equals the tick count and the
+/// f64 division has a constant divisor): outside [1,1500] Hz nothing is reported, inside the rate is
+#[kani::proof]
+#[kani::stub(alloc::fmt::format, stub_format)]
+fn c19_frequency_rate_bounds_1s() {
+    let rv: u32 = kani::any();
+    let ticks: u32 = kani::any();
+    kani::assume(ticks < 0x8000_0000); // forward movement
+    let rt: u64 = kani::any();
+    kani::assume(rt < (1u64 << 40));
+    let r = calculate_frequency_p0f_style(&ts(rv.wrapping_add(ticks), rt + 1000), &ts(rv, rt));
+    if ticks < 5 || ticks > 1500 {
+        assert!(r.is_err());
+    } else {
+        assert!(r == Ok(ticks as f64));
+    }
+}
+/// the same at the slowest admissible clock: interval 10 s, rate = ticks / 10
+#[kani::proof]
+#[kani::stub(alloc::fmt::format, stub_format)]
+fn c19_frequency_rate_bounds_10s() {
+    let ticks: u32 = kani::any();
+    kani::assume(ticks < 0x8000_0000);
+    let r = calculate_frequency_p0f_style(&ts(ticks, 20_000), &ts(0, 10_000));
+    // 1 Hz <= ticks/10 <= 1500 Hz
+    assert!(r.is_ok() == (ticks >= 10 && ticks <= 15_000));
+}
 #[kani::proof]
 #[kani::stub(alloc::fmt::format, stub_format)]
 fn c19_frequency_canary() {
